@@ -6,21 +6,78 @@ import os
 HERE = os.path.dirname(os.path.dirname(os.path.abspath(__file__)))
 
 TEXT = {
-    'C01': ('value numbering + algebraic identity (solver line inverts the integration rule), API oracle, wiring equivalence',
-            'Static analysis of match.py / sorted_array_utils.py: decides, for all real inputs at once, that the kernel\'s scale factor inverts '
-            'the repository\'s own integration rule (Sum(E_R(x, y+y_hat*w)) == target as a rational-function identity, both rules), that the '
-            'weights vanish at window ends, the window/integral index convention, the fixed-point wiring of the three modes, table agreement of '
-            'rule names and that every library reference exists and binds. Not decided: floating-point closeness, the neighbour search (C10), '
-            'preconditions on fixed points.'),
-    'C03': ('value numbering: displacement/weight quotient is index-free; end-point substitution; frame of in-place stores',
-            'Decides over the reals that the kernel displacement is one scalar times the documented weight 1-(2|x-c|/d)^alpha, is zero at both '
-            'window ends, vanishes when the target equals the current integral, and that the only in-place writes are per-window slice stores '
-            'into a fresh float copy. Not decided: numerical idempotence to rounding; smoothing.'),
-    'C06': ('value numbering against documented closed forms; index/stencil analysis of the strategy loop nests',
-            'Decides for all real arguments and symbolic exponent that the five shape functions equal their closed forms and hit both end points; '
-            'that every in-place store of the four window strategies is the documented piece over its sample range (border geometry included), '
-            'that exp/beta/a/adaptive_smooth are forwarded, and that the adaptive split table equals the documented formula (adaptive_smooth=1). '
-            'Not decided: int() truncation effects, floating point.'),
+    'C01': ('value numbering + algebraic identity (the solver line inverts the integration rule), library API oracle, wiring equivalence, scan decision tables, element-type shadow',
+            'Decides, for all real inputs at once, that the kernel\'s scale factor inverts the repository\'s own integration rule (Sum(E_R(x, y+y_hat*w)) == target as a '
+            'rational-function identity, both rules), that the weights vanish at window ends, the window/integral index convention, the fixed-point wiring of the three modes, '
+            'table agreement of rule names, that every library reference exists and binds, that the working copy is float (DT rule) and the strictness table of the neighbour '
+            'scans. Not decided: floating-point closeness, full correctness of the scans, preconditions on fixed points.'),
+    'C02': ('composition of C04/C05/C17/C01 obligations along the recreate -> match call path (value numbering, wiring of the Weaver pipeline)',
+            'Decides the structural chain behind "averages are reproduced": the reference handed to integral_match is the piecewise-constant oversampling of the original on the '
+            'n-fold grid (documented constructions of the helpers, C17), recreate stores the strategy result, match receives reference and working series in their slots with the '
+            'documented rules, and the matching identity of C01 holds. Not decided: the numeric equality of interval means (follows over the reals from the identities; floating point not modelled).'),
+    'C03': ('value numbering: displacement/weight quotient is index-free; end-point substitution; frame of in-place stores; dispatcher table; element-type shadow',
+            'Decides over the reals that the kernel displacement is one scalar times the documented weight 1-(2|x-c|/d)^alpha, is zero at both window ends, vanishes when the target '
+            'equals the current integral, that the only in-place writes are per-window slice stores into a fresh float copy, and that the strategy name selects the documented '
+            'neighbour search. Not decided: numerical idempotence to rounding; smoothing.'),
+    'C04': ('symbolic shape / kind inference of every strategy result, documented helper constructions (value numbering), guard analysis of n < 2',
+            'Decides that every strategy returns two float ndarrays of extent (m-1)*n+1 on the grid oversample_linspace(x, n) (every n-th point an original by construction of '
+            'linspace, compared as uninterpreted terms), that FunctionRFA samples on that grid, and that n < 2 raises ValueError in the shared constructor. Not decided: finiteness of values (numeric).'),
+    'C05': ('index/stencil analysis of the strategy loop nests (ranges tile, plateau never written), value numbering of border values and constants, tie-scenario case analysis',
+            'Decides that the result starts as the piecewise-constant oversampling, that every in-place store hits sample i of interval k inside its left / right window with ranges '
+            'that tile, that border values are shared between neighbouring intervals, that constants are reproduced (unit weight sum), the window-size formulas, the forwarding of a to the '
+            'adaptive split, and - one scenario at a time - that in every tie case each store has an empty range or the documented value. Not decided: the inequalities (never overshoot, monotone).'),
+    'C06': ('value numbering against documented closed forms; index/stencil analysis; case specialisation of the window tables; tie-scenario case analysis',
+            'Decides for all real arguments and symbolic exponent that the five shape functions equal their closed forms and hit both end points; that every in-place store of the four '
+            'window strategies is the documented piece over its sample range (border geometry included, unconditional per interval), that exp/beta/a/adaptive_smooth are forwarded with the '
+            'documented formulas, that the adaptive split table equals the documented formula in each of its four cases, and the tie scenarios. Not decided: int() truncation effects, floating point.'),
+    'C07': ('invariance by homogeneity + vanishing total derivative on canonical forms; stencil offsets; case enumeration of the adaptive split; literal-options rule for the spline',
+            'Decides that every stored sample is affine in the averages with data-free coefficients and invariant under an affine map of the abscissae, that interval k reads offsets -1..1 '
+            'only, that the adaptive windows are unit-free in every branch case, that the grid helpers are affine-equivariant, and that the cubic-spline scheme is fixed independently of the data. '
+            'Not decided: non-negativity of weights, exact float equality of the two sides.'),
+    'C08': ('per-method symbolic summaries + induction over histories; renaming of field references (paired-update rule); frame rule; alias classes; None-default variants; element-type shadow',
+            'Decides that the constructor establishes working == reference == original copies, that each of the ten domain operations applies to the reference exactly the transformation it '
+            'applies to the working series (same callee, same arguments, same guard; every default-resolution path), that no other method writes the reference, and that no in-place write '
+            'reaches it. History quantifier discharged by induction. Not decided: that each transformation is the documented one (C11, C12, C14, C17).'),
+    'C09': ('flow-sensitive alias / freshness analysis with literal-specialised summaries; container-kind and symbolic-length inference of every field store; restore frame; element-type shadow',
+            'Decides that no Weaver field aliases caller arrays or the stored original, that every store into a series field is a 1-D float ndarray whose x/y extents agree on every path '
+            '(callee returns specialised per dispatch literal, unknown names included), that restore_original resets working, reference and scales from copies of the original, and the DT rule '
+            '(no grid forced into a borrowed integer dtype). Not decided: finiteness, strict monotonicity of x as a numeric fact.'),
+    'C10': ('semantic model of the two-pointer scans from evaluated loop summaries; finite decision tables over the orderings of compared values; dispatcher by literal specialisation',
+            'Decides the dispatcher table, that element values are used only in comparisons, and the strictness / tie / fill / exhaustion table of the three scans (conditions and stored indices '
+            'compared with the documented ones under every ordering; value and counter advance together; sentinel tested by identity; one slot per query). Not decided: that a scan with the right '
+            'table is correct for every input (loop invariants).'),
+    'C11': ('value numbering of slice bounds against the documented lookups (idiom-tolerant), guard analysis, wiring of the Weaver wrappers',
+            'Decides that truncate returns x[l:r], y[l:r] with l / r the lower / higher neighbour of the (ratio-converted) bounds, that the Weaver wrappers forward bounds and flags in their slots '
+            'to working and reference alike, that slicing by index is the Python slice, and that slice_by_value looks its bounds up by exact equality (0 is a value, not "omitted"). Not decided: the neighbour search itself (C10).'),
+    'C12': ('offset stencil of the in-place loop modulo its frame; extents; purity; wiring; element-type shadow',
+            'Decides that repeat returns tile(y, r) untouched and tile(x, r) with copy i shifted by (end of previous copy - start) + last step read from the array being built, each copy once, '
+            'on every path; extents r*len; inputs not written; float working buffer; Weaver.repeat applies it to working and reference. Not decided: the accumulated closed form and strict monotonicity (induction over in-place updates).'),
+    'C13': ('dispatch by literal specialisation; value numbering of the piecewise-constant construction; grid construction of Weaver.interpolate; element-type shadow',
+            'Decides which library interpolant each method name reaches with (x, y, new_x) in their slots, the lower-neighbour construction of the constant method (left fill included), that '
+            'interpolate(n) builds linspace(x[0], x[-1], n) on the current series, end-point guards, and the DT rule (result buffer float). Not decided: NumPy / SciPy numerics.'),
+    'C14': ('value numbering of pointwise maps; loop coverage; paired updates; element-type shadow',
+            'Decides that shift / scale / normalise store the documented pointwise expressions (working and reference), that trend adds fun(x_i) or fun(x_i/(x_last-x_first)) to every sample once '
+            'on a private float copy, linear_trend delegates with a*t, and the DT rule (no cast back to a borrowed dtype). Not decided: order preservation of normalise, additivity as a numeric law.'),
+    'C15': ('value numbering of the scale formula; argument binding of the random draw; purity / aliasing; element-type shadow',
+            'Decides that the noise scale is sqrt(mean(a^2)/SNR) with SNR = 10^(snr/10) for decibels and snr itself otherwise (or the explicit std), that exactly one normal draw of the signal\'s '
+            'extent is added to a fresh array, the caller\'s array is not written, and Weaver.noise forwards its arguments. Not decided: the statistical clause.'),
+    'C16': ('argument binding of splrep / BSpline; default-s formula by value numbering; wiring and frame of the Weaver methods; element-type shadow',
+            'Decides that spline_smooth fits splrep(x, y, s=s) with the documented default for s=None and returns BSpline of exactly that fit, that Weaver.smooth stores its values at self.x only, '
+            'to_function(s=0) returns the fit of the current series untouched, and the DT rule (y not cast to x\'s dtype). Not decided: everything FITPACK computes.'),
+    'C17': ('congruence of code and documented construction as uninterpreted library terms with normalised arguments (idiom gate), index arithmetic of the interval view',
+            'Decides that the oversampling / extension / append helpers, the interval view (flat index, padding, closed intervals, counts) and the integration rules are the documented constructions, '
+            'that average is nanmean over the interval view with each block\'s first abscissa, and that flags are used as truth values. Not decided: NumPy semantics themselves (trusted, compared as terms).'),
+    'C18': ('complete enumeration of finite tables (description tables x spelling variants x lookup namespace x loader descriptors x shipped CSV files x package-data globs)',
+            'Decides for every documented name and its -/_ variants that load_dataset computes an attribute bound to a loader accepting the unpack flag, that every remote descriptor is literal with '
+            'pairwise distinct url / checksum / cache slot, that every bundled CSV exists, is shipped and parses as two finite columns with increasing abscissa, the data-home rule, and that unknown names '
+            'reach only ValueError. Exhaustive over the shipped tables. Not decided: the content of remote files.'),
+    'C19': ('effect ordering / typestate on the evaluated download path (who writes the cache slot, publish by rename after verified parse and closed dump), retry loop read off the evaluated path, enumeration of the download condition',
+            'Decides that the cache slot is written only by one rename of a completely written, closed file derived from checksum-verified bytes inside a temporary directory on the same file system, '
+            'the order download -> verify -> parse -> dump -> close -> publish, checksum always on, the retry discipline (n_retries failures absorbed, the next propagates), the 8-row download table '
+            'and pairwise distinct slots. Not decided: crash points and schedules themselves (covered by the structural argument whose premises these are).'),
+    'C20': ('guard table by evaluation; dispatch by literal specialisation including near-miss names; check-before-commit ordering of raises and field stores',
+            'Decides that each invalid-request class has a guard on the stated operands whose failing branch raises ValueError, that every name dispatch ends in ValueError for unknown and near-miss '
+            'names, and that in every field-writing Weaver method no raise or raising callee is reachable after the first store. Not decided: exceptions raised inside NumPy / SciPy.'),
 }
 DEFAULT_NOTE = ('Trusted: CPython ast parses what the interpreter runs; written table of NumPy/SciPy semantics (twverif/symeval.py handlers); '
                 'field axioms over the reals (no floating-point model); preconditions stated by the property are assumed.')
